@@ -22,10 +22,14 @@
      * PARTIAL: `TooManyPlaceables` not among the reported errors.  A run that reaches the placeable limit is
        not described by `Eval`; for it C07_limit_reported_once (exactly one TooManyPlaceables, reported
        iff the run was cut short) and C06_budget / C06_limit_error hold.  What is printed after the limit
-       trips (the `{…}` appended by every enclosing placeable) is not specified by the property.         *)
+       trips (the `{…}` appended by every enclosing placeable) is not specified by the property.
+       REMOVED below by the budgeted specification `Specb` (Bundle/ResolverSpecLimit.v, which does specify it, from
+       the Rust lines): C07_refines_all_runs / C07_refines_format_all_runs have no such hypothesis;
+       C07_budget_conservative, C07_budget_total, C07_limit_run_errors, C07_after_limit relate `Specb` to `Eval`.  *)
 From FluentV Require Import Base.Bytes Base.Outcome Syntax.Ast Bundle.Args Bundle.ArgsProofs Bundle.Number
   Bundle.ResolverAst Bundle.ResolverModel Bundle.ResolverEqns Bundle.ResolverSim Bundle.ResolverPure
-  Bundle.ResolverSpec Bundle.ResolverRefine Gen.Extracted.
+  Bundle.ResolverSpec Bundle.ResolverRefine Bundle.ResolverSpecLimit Bundle.ResolverRefineLimit Bundle.ResolverLimitDirty Gen.Extracted.
+From FluentV Require Bundle.ResolverTotal Bundle.NumberProofs.
 
 Local Open Scope N_scope.
 
@@ -256,6 +260,165 @@ Proof.
   - intros name n cat ops. apply key_matches_category.
 Qed.
 
+(* ================= runs that reach the placeable limit (removes the PARTIAL premise above) =================
+   `SpecB n (text, errors, calls) count dirty` is the BUDGETED big-step specification of Bundle/ResolverSpecLimit.v:
+   the rules of `Spec`, with the two pieces of state of resolver/scope.rs (placeables, dirty) threaded through them
+   and four more rules that are the lines of the Rust code which test them: the placeable that exceeds
+   MAX_PLACEABLES reports TooManyPlaceables and writes nothing (pattern.rs 43-48), a pattern writes nothing while
+   dirty (pattern.rs 30-32), a placeable that ends dirty is followed by {its source} (scope.rs 72-75).
+   Proofs: Bundle/ResolverRefineLimit.v. *)
+Notation SpecB := (Specb call_function transform formatter rules custom_as_string unescape_write f64_from_str m args).
+
+(* "the formatted text of a message value or attribute equals what the Fluent resolution rules give ... an exceeded
+   placeable limit is reported once where it occurs": EVERY run of write_pattern on the pattern named n that returns
+   (any fuel; C06_total: it does at fuel_of) — with NO hypothesis on the reported errors — writes the text, reports
+   the errors IN ORDER, invokes the functions and ends with the placeable counter and dirty flag that the budgeted
+   specification assigns from a fresh scope (0, not dirty).  Every bundle, argument set, both isolation settings
+   (isolating: the D23 class `no_marks_in_values` stays a premise). *)
+Theorem C07_refines_all_runs :
+  forall iso fuel n p c o sc,
+    cache_ok rules c -> no_marks_in_values m iso p -> pattern_named m n = Some p ->
+    write iso fuel (Some (key_of n)) p c = Done (o, sc) ->
+    SpecB n (flatten (strip o), sc_errors sc, sc_calls sc) (sc_placeables sc) (sc_dirty sc).
+Proof.
+  exact (specb_refines overflow_checks call_function transform formatter rules custom_as_string
+           unescape_write unescape_to_string f64_from_str m args unescape_forms_agree).
+Qed.
+
+(* the same for the string API, isolation off: the returned string IS the specified text, limit or not *)
+Theorem C07_refines_format_all_runs :
+  forall fuel n p c text sc,
+    cache_ok rules c -> pattern_named m n = Some p ->
+    format false (S fuel) (Some (key_of n)) p c = Done (text, sc) ->
+    SpecB n (text, sc_errors sc, sc_calls sc) (sc_placeables sc) (sc_dirty sc).
+Proof.
+  exact (specb_refines_format overflow_checks call_function transform formatter rules custom_as_string
+           unescape_write unescape_to_string f64_from_str m args unescape_forms_agree).
+Qed.
+
+(* the budgeted specification adds nothing below the limit and is a function:
+   (1) a derivation that ends not dirty is, rule by rule, a derivation of `Spec` (so C07_refines_partial is the
+       corollary C07_refines_below_limit below);
+   (2) at most one (text, errors, calls), counter and flag per named pattern. *)
+Theorem C07_budget_conservative :
+  (forall n r count, SpecB n r count false -> Spec n r) /\
+  (forall n r1 c1 d1 r2 c2 d2, SpecB n r1 c1 d1 -> SpecB n r2 c2 d2 -> r1 = r2 /\ c1 = c2 /\ d1 = d2).
+Proof.
+  split.
+  - exact (specb_conservative call_function transform formatter rules custom_as_string unescape_write f64_from_str m args).
+  - exact (specb_functional call_function transform formatter rules custom_as_string unescape_write f64_from_str m args).
+Qed.
+
+(* (3) the budgeted specification leaves no pattern out: it assigns a result to EVERY named pattern of EVERY bundle
+   (C06_total: the resolver returns at fuel_of when the three sources of numbers — literals, functions, arguments —
+   are f64s), so with (2) it is a total function; `Spec` alone is not (it has no result for a limit run that
+   would otherwise be too long to write down). *)
+Theorem C07_budget_total :
+  (forall s v, f64_from_str s = Some v -> NumberProofs.fval_in_f64_range v) ->
+  (forall name pos named, ResolverTotal.value_ok (call_function name pos named)) ->
+  ResolverTotal.oargs_ok args ->
+  forall n p, pattern_named m n = Some p -> exists r count d, SpecB n r count d.
+Proof.
+  intros Hparse Hfun Hargs n p Hn.
+  exact (specb_total overflow_checks call_function transform formatter rules custom_as_string
+           unescape_write unescape_to_string f64_from_str m args unescape_forms_agree n p Hparse Hfun Hargs Hn).
+Qed.
+
+(* "an exceeded placeable limit is reported once where it occurs, and nothing else is reported" — for every result
+   the budgeted specification assigns (hence, by C07_refines_all_runs, for every run):
+   (1) TooManyPlaceables is in the error list exactly once when the run ends dirty and not at all otherwise;
+   (2) the counter is MAX_PLACEABLES + 1 exactly when the limit was exceeded (the 101st counted placeable) and at most
+       MAX_PLACEABLES otherwise;
+   (3) the errors reported BEFORE TooManyPlaceables are, in order, an initial segment of the errors the un-budgeted
+       rules `Spec` report for the same pattern (whenever `Spec` assigns it a result), and a run that does not
+       report it has exactly the result of `Spec`.
+   The errors after it come from the un-budgeted rules applied to what is left of the cut patterns: C07_after_limit
+   (ResolverSpecLimit.v: only BL_limit reports TooManyPlaceables, every other rule reports what its ResolverSpec.v
+   original reports). *)
+Theorem C07_limit_run_errors :
+  forall n t es cs count d,
+    SpecB n (t, es, cs) count d ->
+    (tmp_count es = (if d then 1 else 0)%nat /\ (In TooManyPlaceables es <-> d = true)) /\
+    (if d then count = MAX_PLACEABLES + 1 else count <= MAX_PLACEABLES) /\
+    (forall r0, Spec n r0 ->
+       if d then exists before after rest, es = before ++ TooManyPlaceables :: after /\ snd (fst r0) = before ++ rest
+       else r0 = (t, es, cs)).
+Proof.
+  intros n t es cs count d H. split; [|split].
+  - exact (specb_errors call_function transform formatter rules custom_as_string unescape_write f64_from_str m args
+             n t es cs count d H).
+  - exact (specb_count call_function transform formatter rules custom_as_string unescape_write f64_from_str m args
+             n (t, es, cs) count d H).
+  - exact (specb_prefix call_function transform formatter rules custom_as_string unescape_write f64_from_str m args
+             n t es cs count d H).
+Qed.
+
+(* "... and nothing else is reported", AFTER the limit: whatever the budgeted specification evaluates from a dirty
+   state (the rest of a select expression, of a call's arguments, of a term call, after the limit was exceeded
+   inside them) leaves the state as it is and is, rule by rule, what the UN-budgeted rules of `Spec` give for the
+   same node when every pattern is emptied — the variants of its selects (blank_inline) and the values and attributes
+   of the bundle's entries (blank_entries; names, presence of values and attributes unchanged):
+   patterns write and report nothing; a placeable is followed by {its source}; and an error reported there is the
+   unknown reference / value-less message / cycle / missing default that the un-budgeted rule reports at that node. *)
+Theorem C07_after_limit :
+  (forall T env p n r st',
+     specb_pattern call_function transform formatter rules custom_as_string unescape_write f64_from_str m args
+       T env p (n, true) r st' -> st' = (n, true) /\ r = just []) /\
+  (forall T env e n r st',
+     specb_tracked call_function transform formatter rules custom_as_string unescape_write f64_from_str m args
+       T env e (n, true) r st' ->
+     st' = (n, true) /\
+     exists r1, eval_expr call_function transform formatter rules custom_as_string unescape_write f64_from_str
+                  (blank_entries m) args T env (blank_expr e) r1 /\ r = r1 +++ cut_mark e) /\
+  (forall T env i n r st',
+     specb_inline call_function transform formatter rules custom_as_string unescape_write f64_from_str m args
+       T env i (n, true) r st' ->
+     st' = (n, true) /\
+     eval_inline call_function transform formatter rules custom_as_string unescape_write f64_from_str
+       (blank_entries m) args T env (blank_inline i) r) /\
+  (forall T env i n r st',
+     specb_value call_function transform formatter rules custom_as_string unescape_write f64_from_str m args
+       T env i (n, true) r st' ->
+     st' = (n, true) /\
+     eval_value call_function transform formatter rules custom_as_string unescape_write f64_from_str
+       (blank_entries m) args T env (blank_inline i) r) /\
+  (forall T env a n r st',
+     specb_args call_function transform formatter rules custom_as_string unescape_write f64_from_str m args
+       T env a (n, true) r st' ->
+     st' = (n, true) /\
+     eval_args call_function transform formatter rules custom_as_string unescape_write f64_from_str
+       (blank_entries m) args T env (blank_oargs a) r).
+Proof.
+  pose proof (specb_dirty_all call_function transform formatter rules custom_as_string unescape_write f64_from_str m args)
+    as (Hp & _ & Ht & _ & Hi & _ & Hv & Ha & _).
+  repeat split; intros.
+  - exact (proj1 (Hp _ _ _ _ _ _ H eq_refl)).
+  - exact (proj2 (Hp _ _ _ _ _ _ H eq_refl)).
+  - exact (proj1 (Ht _ _ _ _ _ _ H eq_refl)).
+  - exact (proj2 (Ht _ _ _ _ _ _ H eq_refl)).
+  - exact (proj1 (Hi _ _ _ _ _ _ H eq_refl)).
+  - exact (proj2 (Hi _ _ _ _ _ _ H eq_refl)).
+  - exact (proj1 (Hv _ _ _ _ _ _ H eq_refl)).
+  - exact (proj2 (Hv _ _ _ _ _ _ H eq_refl)).
+  - exact (proj1 (Ha _ _ _ _ _ _ H eq_refl)).
+  - exact (proj2 (Ha _ _ _ _ _ _ H eq_refl)).
+Qed.
+
+(* C07_refines_partial again, now as a corollary of the three theorems above *)
+Corollary C07_refines_below_limit :
+  forall iso fuel n p c o sc,
+    cache_ok rules c -> no_marks_in_values m iso p -> pattern_named m n = Some p ->
+    write iso fuel (Some (key_of n)) p c = Done (o, sc) ->
+    ~ In TooManyPlaceables (sc_errors sc) ->
+    Spec n (flatten (strip o), sc_errors sc, sc_calls sc).
+Proof.
+  intros iso fuel n p c o sc Hc Hok Hn H Hno.
+  pose proof (C07_refines_all_runs iso fuel n p c o sc Hc Hok Hn H) as B.
+  destruct (C07_limit_run_errors _ _ _ _ _ _ B) as [[_ Hd] _].
+  destruct (sc_dirty sc); [exfalso; apply Hno, Hd; reflexivity|].
+  exact (proj1 C07_budget_conservative _ _ _ B).
+Qed.
+
 End C07.
 
 (* ---------- non-vacuity: the historical witnesses, on the model AND (through C07_refines_partial) on the
@@ -389,3 +552,94 @@ Example C07_example_equal_patterns_no_cycle :
   ExSpec equal_patterns None (the "f") (s "end", [], []) /\
   ExSpec equal_patterns None (the "g") (s "{-b}", [Cyclic], []).
 Proof. split; [|split]; apply ex_run_spec; vm_compute; reflexivity. Qed.
+
+(* ---------- non-vacuity of the limit theorems: runs that reach the placeable limit ---------- *)
+(* run write_pattern as ex_run does, keep EVERYTHING: (text, errors, calls), the counter, the dirty flag *)
+Definition ex_run_all (m : list (bytes * bentry)) (a : option fargs) (n : pname) : option (res * N * bool) :=
+  match pattern_named m n with
+  | None => None
+  | Some p =>
+      match write_pattern true ex_call None None ex_rules ex_id ex_id ex_id f64_from_str_exact (Bundle m false) a
+              (fuel_of (Bundle m false) p) (Some (key_of n)) p [] with
+      | Done (o, sc) => Some (flatten (strip o), sc_errors sc, sc_calls sc, sc_placeables sc, sc_dirty sc)
+      | _ => None
+      end
+  end.
+
+Notation ExSpecB m a := (Specb ex_call None None ex_rules ex_id ex_id f64_from_str_exact m a).
+
+(* what the model computes is a derivation of the budgeted specification (C07_refines_all_runs), limit or not *)
+Lemma ex_run_all_spec m a n r count d : ex_run_all m a n = Some (r, count, d) -> ExSpecB m a n r count d.
+Proof.
+  unfold ex_run_all. intros H. destruct (pattern_named m n) as [p|] eqn:En; [|discriminate].
+  destruct (write_pattern true ex_call None None ex_rules ex_id ex_id ex_id f64_from_str_exact (Bundle m false) a
+              (fuel_of (Bundle m false) p) (Some (key_of n)) p []) as [[o sc]|t|] eqn:E; try discriminate.
+  injection H as <- <- <-.
+  eapply (C07_refines_all_runs true ex_call None None ex_rules ex_id ex_id ex_id f64_from_str_exact m a
+            (fun _ => eq_refl) false _ n p [] o sc).
+  - intros ty r Hf. discriminate Hf.
+  - intros Hx. discriminate Hx.
+  - exact En.
+  - exact E.
+Qed.
+
+Definition a_times (k : nat) : bytes := List.repeat 97 k.
+
+(* one pattern of 101 placeables  m = { "a" }{ "a" }...  referenced from  e = <{ m }>:
+   formatting m, 100 are written; the 101st is where the limit is exceeded: it writes nothing and reports
+   TooManyPlaceables, once.  Formatting e, { m } is itself the first counted placeable, so 99 are written; the
+   placeable { m } ends dirty and is followed by {m}; the text after it is not written.  Counter 101, dirty. *)
+Definition hundred_and_one : list (bytes * bentry) :=
+  [message "m" (List.repeat (pl (StringLiteral (s "a"))) 101);
+   message "e" [t "<"; pl (MessageReference (s "m") None); t ">"]].
+Example C07_example_limit_101_placeables :
+  ExSpecB hundred_and_one None (the "m") (a_times 100, [TooManyPlaceables], []) 101 true /\
+  ExSpecB hundred_and_one None (the "e") (s "<" ++ a_times 99 ++ s "{m}", [TooManyPlaceables], []) 101 true.
+Proof. split; apply ex_run_all_spec; vm_compute; reflexivity. Qed.
+
+(* the limit exceeded inside a call argument: F = identity is still called, with the text cut short; an unknown
+   message AFTER the limit is still reported (nothing else is); every enclosing placeable appends its source *)
+Definition limit_in_argument : list (bytes * bentry) :=
+  [(s "F", EFunction (FnUser (s "F")));
+   term "t" (List.repeat (pl (StringLiteral (s "a"))) 100);
+   message "e" [pl (FunctionReference (s "F") (CallArguments [TermReference (s "t") None None; MessageReference (s "nope") None] []));
+                t "|"; pl (StringLiteral (s "never"))]].
+Example C07_example_limit_in_call_argument :
+  ExSpecB limit_in_argument None (the "e")
+    (a_times 99 ++ s "{F()}", [TooManyPlaceables; Reference (RefMessage (s "nope") None)],
+     [Call (s "F") [VString (a_times 99); VString (s "{nope}")] []]) 101 true.
+Proof. apply ex_run_all_spec; vm_compute; reflexivity. Qed.
+
+(* billion laughs (the bundle of Props/C06.v C06_example_laughs: arity 10, depth 3, 1110 placeables if unbounded):
+   lol3 = 10 x { lol2 }, lol2 = 10 x { lol1 }, lol1 = 10 x { lol0 }, lol0 = lol.
+   The first { lol2 } is counted 1, each { lol1 } in it with its ten { lol0 } 11: after nine of them the counter is 100
+   and 90 times "lol" are written; the 10th { lol1 } is the 101st counted placeable: it writes nothing and reports
+   TooManyPlaceables; the enclosing placeable { lol2 } ends dirty and appends {lol2}; the other nine are skipped.
+   276 bytes, as in C06_example_laughs. *)
+Definition laugh (id : string) := pl (MessageReference (s id) None).
+Definition laughs : list (bytes * bentry) :=
+  [message "lol0" [t "lol"];
+   message "lol1" (List.repeat (laugh "lol0") 10);
+   message "lol2" (List.repeat (laugh "lol1") 10);
+   message "lol3" (List.repeat (laugh "lol2") 10)].
+Example C07_example_limit_billion_laughs :
+  ExSpecB laughs None (the "lol3")
+    (List.concat (List.repeat (s "lol") 90) ++ s "{lol2}", [TooManyPlaceables], []) 101 true.
+Proof. apply ex_run_all_spec; vm_compute; reflexivity. Qed.
+
+(* below the limit the budgeted specification gives what `Spec` gives (C07_budget_conservative): D12 again *)
+Example C07_example_below_limit_same :
+  ExSpecB d12 None (the "msg") (s "x A", [], []) 3 false /\ ExSpec d12 None (the "msg") (s "x A", [], []).
+Proof.
+  assert (H : ExSpecB d12 None (the "msg") (s "x A", [], []) 3 false) by (apply ex_run_all_spec; vm_compute; reflexivity).
+  split; [exact H|].
+  exact (proj1 (C07_budget_conservative ex_call None None ex_rules ex_id ex_id f64_from_str_exact d12 None) _ _ _ H).
+Qed.
+
+Print Assumptions C07_refines_all_runs.
+Print Assumptions C07_refines_format_all_runs.
+Print Assumptions C07_budget_conservative.
+Print Assumptions C07_budget_total.
+Print Assumptions C07_limit_run_errors.
+Print Assumptions C07_after_limit.
+Print Assumptions C07_refines_below_limit.
